@@ -190,6 +190,18 @@ func c11Docs(thorough bool) []planDoc {
 			docs = append(docs, planDoc{Title: E, Body: eb, Tasks: []planTask{{Title: sp("a"), Body: tb}, {Title: sp("b"), After: []string{"a"}, Body: sp("second")}}})
 		}
 	}
+	// which tasks carry a body: every subset of three tasks (an entry without body must come out without one, wherever it stands)
+	for m := 0; m < 8; m++ {
+		var tasks []planTask
+		for k, tt := range []string{"a", "b", "c"} {
+			t := planTask{Title: sp(tt)}
+			if m&(1<<k) != 0 {
+				t.Body = sp("body of " + tt)
+			}
+			tasks = append(tasks, t)
+		}
+		docs = append(docs, planDoc{Title: E, Tasks: tasks})
+	}
 	for _, et := range []*string{nil, sp(""), sp("  "), sp(" padded "), sp("Título \U0001F600")} {
 		docs = append(docs, planDoc{Title: et, Tasks: []planTask{{Title: sp("a")}}})
 	}
